@@ -81,6 +81,21 @@ def build(kind: str, a: str, b: str):
     elif kind == "prop_inherited":
         m["classes"] = [_cls("Parent", [(a, INT)], abstract=True), _cls("Something", [(b, INT)], bases=["Parent"])]
         roles = [("prop", a, "Something"), ("prop", b, "Something")]
+    elif kind == "prop_two_parents":
+        m["classes"] = [_cls("Left_parent", [(a, INT)], abstract=True), _cls("Right_parent", [(b, INT)], abstract=True), _cls("Something", [("x_value", INT)], bases=["Left_parent", "Right_parent"])]
+        roles = [("prop", a, "Something"), ("prop", b, "Something")]
+    elif kind == "prop_method_two_parents":
+        m["classes"] = [_cls("Left_parent", [(a, INT)], abstract=True), _cls("Right_parent", [("y_value", INT)], abstract=True, methods=[b]), _cls("Something", [("x_value", INT)], bases=["Left_parent", "Right_parent"])]
+        roles = [("prop", a, "Something"), ("method", b, "Something")]
+    elif kind == "prop_two_grandparents":
+        m["classes"] = [
+            _cls("Left_grandparent", [(a, INT)], abstract=True),
+            _cls("Right_grandparent", [(b, INT)], abstract=True),
+            _cls("Left_parent", [], bases=["Left_grandparent"], abstract=True),
+            _cls("Right_parent", [], bases=["Right_grandparent"], abstract=True),
+            _cls("Something", [("x_value", INT)], bases=["Left_parent", "Right_parent"]),
+        ]
+        roles = [("prop", a, "Something"), ("prop", b, "Something")]
     elif kind == "prop_method":
         m["classes"] = [_cls("Something", [(a, INT)], methods=[b])]
         roles = [("prop", a, "Something"), ("method", b, "Something")]
@@ -114,6 +129,7 @@ def build(kind: str, a: str, b: str):
     return m, roles
 
 
+ANCESTORS = ("Parent", "Left_parent", "Right_parent", "Left_grandparent", "Right_grandparent")
 TYPE_LIKE_KINDS = {"class_class", "class_abstract", "class_enum", "enum_enum", "class_cprim", "lit_lit", "const_const", "lit_other_enum"}
 
 # which naming functions of <target>/naming.py give the names an entity of a role declares in the scope it shares
@@ -174,7 +190,7 @@ def _py_declared(out_dir: pathlib.Path, kind: str, roles) -> list:
         from aas_core_codegen.python import naming as pn
         from aas_core_codegen.common import Identifier
 
-        cnames = {str(pn.class_name(Identifier(o))) for o in (roles[0][2], "Parent")}
+        cnames = {str(pn.class_name(Identifier(o))) for o in (roles[0][2],) + ANCESTORS}
         tree = ast.parse((pkg / "types.py").read_text(encoding="utf-8"))
         names = []
         for n in tree.body:
@@ -261,7 +277,7 @@ def _json_declared(out_dir: pathlib.Path, kind: str, roles) -> list:
                 for x in node:
                     walk(x)
 
-        wanted = {str(naming.json_model_type(Identifier(o))) for o in {"Something", "Parent"}}
+        wanted = {str(naming.json_model_type(Identifier(o))) for o in ("Something",) + ANCESTORS}
         wanted |= {w + "_abstract" for w in list(wanted)}
         for k, v in defs:
             if k in wanted:
@@ -282,13 +298,40 @@ def _xsd_declared(out_dir: pathlib.Path, kind: str, roles) -> list:
         xn = importlib.import_module("aas_core_codegen.xsd.naming")
         from aas_core_codegen.common import Identifier
 
-        groups = {str(xn.group_name(Identifier(o))) for o in ("Something", "Parent")}
+        groups = {str(xn.group_name(Identifier(o))) for o in ("Something",) + ANCESTORS}
         names = []
         for e in root:
             if e.tag == XS + "group" and e.get("name") in groups:
                 names.extend(x.get("name") for x in e.iter(XS + "element") if x.get("name"))
         return names
     return []
+
+
+def _py_module_duplicates(out_dir: pathlib.Path) -> list:
+    """Names bound more than once at the top level of a generated Python module (``module:name``), whatever they are
+    derived from (classes, functions, private look-up tables such as ``_<ENUM>_FROM_STR``)."""
+    dups = []
+    for f in sorted((out_dir / "vsdk").glob("*.py")):
+        try:
+            tree = ast.parse(f.read_text(encoding="utf-8"))
+        except SyntaxError:
+            continue
+        seen = set()
+        for n in tree.body:
+            names = []
+            if isinstance(n, (ast.ClassDef, ast.FunctionDef)):
+                if any(isinstance(d, ast.Name) and d.id == "overload" for d in getattr(n, "decorator_list", [])):
+                    continue
+                names = [n.name]
+            elif isinstance(n, ast.Assign):
+                names = [t.id for t in n.targets if isinstance(t, ast.Name)]
+            elif isinstance(n, ast.AnnAssign) and isinstance(n.target, ast.Name) and n.value is not None:
+                names = [n.target.id]
+            for nm in names:
+                if nm in seen and "%s:%s" % (f.stem, nm) not in dups:
+                    dups.append("%s:%s" % (f.stem, nm))
+                seen.add(nm)
+    return dups
 
 
 DECLARED = {"python": _py_declared, "jsonschema": _json_declared, "xsd": _xsd_declared}
@@ -336,6 +379,7 @@ def _one(args):
                 "detail": "",
                 "exc_site": "",
                 "names_found": True,
+                "module_dups": [],
             }
             if front == "accepted":
                 base = mm.default_snippets(t)
@@ -364,6 +408,8 @@ def _one(args):
                         rec["has_declared"] = True
                     except (SyntaxError, ET.ParseError, ValueError) as ex:
                         rec["detail"] = "output not parsable: %s" % (str(ex)[:120],)
+                if rec["outcome"] == "ok" and t == "python" and not needs_snippets:
+                    rec["module_dups"] = _py_module_duplicates(pathlib.Path(r["out_dir"]))
                 # do the names occur in the output as words at all?
                 if rec["outcome"] == "ok" and (na or nb):
                     blob = []
